@@ -30,5 +30,33 @@ CLAIMS["C10"] = pending("C10", "count_positions vs cumulative perft of the rules
 CLAIMS["C14"] = pending("C14", "Game API accept/reject vs model and legality, snapshots around rejected inputs (theorems pending)")
 CLAIMS["C15"] = pending("C15", "book trie vs translated lines; engine move legality at every book node and supplied positions (theorems pending)")
 CLAIMS["C17"] = pending("C17", "registration counts vs reference multiset of full positions and vs the model (theorems pending)")
-for _p in ("C09",):
-    CLAIMS[_p] = {"not_applicable": True, "reason": "check under construction in this session (not a limitation of the technique); not claimed until it runs"}
+
+PROOF_NOTE = ("Trusted: Coq 8.16.1 kernel and vm_compute; no axioms (Print Assumptions of every theorem in props/%s.v must say 'Closed under the global context'); "
+              "the hand-written model (rocq/*.v) as a rendering of src/, tied to the code by tools/translate.py (data regenerated from the working tree every run, theorems re-checked on it) "
+              "and by the correspondence run (Rust harness on the real code vs the extracted OCaml model vs the rules spec; extraction with ExtrOcamlBasic + ExtrOcamlString only); "
+              "rocq/Rules.v as a rendering of the FIDE Laws. Coverage of the correspondence is what evidence/%s.json reports.")
+
+
+def proof(pid, text, technique):
+    return {"category": "proof", "text": text, "note": PROOF_NOTE % (pid, pid), "technique": technique}
+
+
+CLAIMS["C05"] = proof("C05", "Kernel-checked theorems over the model for every key table and every history of put/remove/rights/ep operations, moves and take-backs: the incremental key equals the XOR key_of the observable position (hash_is_key_of), histories ending in the same position end with the same key, and - with table_ok evaluated by the kernel on the constants of the current build - positions differing in one cell, only in rights or only in the ep target have different keys. Tied to the code by the black-box read-back of all 848 constants and by the correspondence of the key after every operation of generated histories.",
+                      "Rocq proof (invariant by induction over operation histories, XOR algebra on N) + kernel sweep of the build's key table + correspondence")
+CLAIMS["C11"] = proof("C11", "Kernel-checked theorem for ANY 64 magic entries that pass the build script's acceptance test: the table built by make_table answers every lookup (any square, any 64-bit occupancy) with the ray walk up to and including the first occupied square, and never indexes outside the table; the 128 entries of the current build are shown to pass the test by a complete sweep of the 107,648 blocker sets inside the kernel VM on every run; knight and king tables equal the coordinate definition on all 64 squares. Tied to the code by reading the entries through the hook and by the exhaustive sweep of the engine's attack maps against ray walking.",
+                      "Rocq proof (magic_lookup_exact for every accepted multiplier) + kernel sweep of the current build's entries + exhaustive differential sweep of the engine tables")
+CLAIMS["C14"] = proof("C14", "Command-line level proved: every string the SAN writer can emit (164,166 labels, complete sweep on the regexes translated from the source each run) is classified as notation and never as a coordinate pair, every coordinate pair as coordinates, and every label printed by san_label is of that shape. The Game-API part (accepted iff legal, played exactly, rejected without effect) is decided by correspondence with the model and the rules plus snapshots taken around every rejected input, and by typing every printed label into the real input layer.",
+                      "Rocq proof (complete regex sweep + label-shape theorem) for the input layer; differential correspondence + snapshot equality for the Game API")
+CLAIMS["C15"] = proof("C15", "Kernel-checked on the book source translated every run: every prefix of every line is a legal sequence from the initial position of the rules spec, each book move matches exactly one legal move, the trie (any hash-map iteration order) returns exactly the continuations of the lines, and every suggestion drawn at a book node is legal there. That the engine answers with a legal move off-book and from supplied positions is decided by correspondence (every trie node, off-book histories, supplied positions).",
+                      "Rocq proof (complete sweep of the book + trie refinement by induction) + differential correspondence for the engine's move")
+CLAIMS["C16"] = proof("C16", "Kernel-checked theorems over the model: each applied move advances the move counter by one and resets / advances the half-move clock exactly as the rules' successor does, undo retreats both, whole games satisfy clock = plies since the last capture or pawn move, the counters cannot abort in a game shorter than 65534 plies not yet drawn on move count, and the draw is reported exactly when the clock has reached 100 (threshold translated from the source). Tied to the code by reference-tracked long games including the boundary plies.",
+                      "Rocq proof (induction over games, characterisation of every counter operation) + correspondence along long games")
+CLAIMS["C17"] = proof("C17", "First sentence proved over the model (count = registrations minus unregistrations of the same (key, side), unregistering is the observational inverse, third registration draws; under collision_free the count is the number of occurrences of the full position). Second sentence REFUTED for the code as it is: nothing reachable through the Game API registers a position (api_no_repetition_draw, threefold_not_reported) - recorded as a known finding and replayed on the real Game API every run.",
+                      "Rocq proof for the accounting + refutation theorem for the Game API (known finding) + correspondence with a reference multiset")
+CLAIMS["C19"] = proof("C19", "Kernel-checked: to_uci is the standard long coordinate form; from_uci (to_uci m) = m exactly for the moves that fit the board (uci_roundtrip_iff), hence injectivity; every move the model's generator emits fits (gen_moves_fit). Tied to the code by rendering and reading back every legal move of generated positions through the cfg-exposed reader.",
+                      "Rocq proof (round trip and injectivity for all fitting moves, generator emits only fitting moves) + correspondence")
+CLAIMS["C08"] = proof("C08", "Generic theory kernel-checked: fail-soft alpha-beta with the engine's loop structure satisfies the fail-soft contract for every window, equals plain minimax on the full window, minimax does not depend on move order, and a search through a sound shared cache (fresh or reused) returns the same value, provided the cache key determines the value. The chess instance (the engine's own evaluation, generator and key) is decided by correspondence: (score, move) of the real search vs the exact minimax of the extracted model, fresh and reused contexts.",
+                      "Rocq proof of the generic alpha-beta / memoisation theory + differential correspondence of the real search with exact minimax")
+CLAIMS["C09"] = proof("C09", "Generic theory kernel-checked for EVERY schedule: tasks as read/write resumptions over a shared cache; under 'key determines value' every finished task returns the pure value of its root move, the cache stays sound, no task can block, every partial schedule extends to a complete one with the same answers; the hypothesis is shown necessary (two schedules disagree with the original (hash, alpha, beta) key). Runtime: the real search in pools of 1..64 threads under seeded schedule perturbation at every hook point, with an observer that flags any cache key written with two values. OS-level preemption inside locks and rayon's work stealing are below the model's granularity.",
+                      "Rocq proof over all interleavings of the resumption model + perturbed-schedule runs of the real search with a cache-write observer")
+
